@@ -190,19 +190,14 @@ impl FromStr for Pinned {
 
         // Check for "registry+" at the start.
         let prefix_plus = format!("{}+", Self::PREFIX);
-        if s.find(&prefix_plus).is_some_and(|loc| loc != 0) {
-            return Err(PinnedParseError::Prefix);
-        }
-
-        let without_prefix = &s[prefix_plus.len()..];
+        let without_prefix = s
+            .strip_prefix(&prefix_plus)
+            .ok_or(PinnedParseError::Prefix)?;
 
         // Parse the package name.
-        let pkg_name = without_prefix
-            .split('?')
-            .next()
+        let (pkg_name, without_package_name) = without_prefix
+            .split_once('?')
             .ok_or(PinnedParseError::PackageName)?;
-
-        let without_package_name = &without_prefix[pkg_name.len() + "?".len()..];
         let mut s_iter = without_package_name.split('#');
 
         // Parse the package version
